@@ -9,10 +9,10 @@ def main():
     w = build_world()
     M = "graphql.language.lexer"
     saved = w.contracts.get(f"{M}.read_hex_digit")
-    w.contract(f"{M}.read_hex_digit", params={"char": "char"}, returns="int",
+    w.contract(f"{M}.read_hex_digit", override=True, params={"char": "char"}, returns="int",
                ensures=["-1 <= result <= 15"])
     r1 = verify_function(w, f"{M}:read_hex_digit", w.contracts[f"{M}.read_hex_digit"])
-    w.contract(f"{M}.read_hex_digit", params={"char": "char"}, returns="int",
+    w.contract(f"{M}.read_hex_digit", override=True, params={"char": "char"}, returns="int",
                ensures=["result >= 0"])
     r2 = verify_function(w, f"{M}:read_hex_digit", w.contracts[f"{M}.read_hex_digit"])
     if saved is not None:
